@@ -258,6 +258,11 @@ func runOne(rec *Recorder, sc *ScriptConn, cx *layer4.Connection, compiled layer
 		}
 		rec.WaitBranch(wait)
 	}
+	if bl, _, _, _ := layer4.VerifConnState(cx); true {
+		rec.NoteBuf(bl)
+	}
+	// the largest matching buffer any matcher saw (C05: limit plus one prefetch chunk at most)
+	rec.Add(Ev{"e": "Buf", "n": rec.MaxBuf})
 	rec.Add(Ev{"e": "Return"})
 }
 
@@ -278,6 +283,8 @@ func ScaleHist(hist []Ev, scale int) (out []Ev, ok bool) {
 			n[k] = v
 		}
 		switch e["e"] {
+		case "Buf":
+			n["n"] = e["n"].(int) / scale
 		case "Pull":
 			n["n"] = div(e["n"].(int))
 		case "Handle", "Enter", "Fallback":
